@@ -134,7 +134,7 @@ fn corruptions(kind: &str, cur: &Value) -> Vec<(String, Value)> {
         "channel" => {
             for c in [
                 "channel-", "channel", "channel-x", "channel-1x", "channel--1", "channel-+1", "Channel-1", " channel-1", "channel-1 ", "channel-18446744073709551616", "channel-01", "", "channel-1/2",
-                "channel-٣", "channel-1\n", "channel-0x1", "channel-1e3", "CHANNEL-1", "channel-+0", "channel-99999999999999999999",
+                "channel-٣", "channel-1\n", "channel-0x1", "channel-1e3", "CHANNEL-1", "channel-+0", "channel-99999999999999999999", "channel-channel-1", "channel-1-1", "channel-1\0", "transfer/channel-1", "channel-1/", "channel-\u{ff11}",
             ] {
                 out.push((format!("ch:{c:?}"), json!(c)));
             }
@@ -152,6 +152,16 @@ fn corruptions(kind: &str, cur: &Value) -> Vec<(String, Value)> {
                 ("non_ascii_64_bytes", format!("ibc/{}é", &h[..62])),
                 ("space", format!(" ibc/{h}")),
                 ("factory", format!("factory/{}/x", contract_addr())),
+                // the prefix written twice or three times (a script prepending "ibc/" to a full denom), a suffix,
+                // another separator, an inner slash: every well-spelt part is there, the whole is not a voucher denom
+                ("prefix_twice", format!("ibc/ibc/{h}")),
+                ("prefix_thrice", format!("ibc/ibc/ibc/{h}")),
+                ("prefix_then_trace", format!("ibc/transfer/channel-0/{h}")),
+                ("suffix_slash", format!("ibc/{h}/")),
+                ("two_hashes", format!("ibc/{h}{h}")),
+                ("backslash", format!("ibc\\{h}")),
+                ("tab", format!("ibc/{h}\t")),
+                ("nul", format!("ibc/{}\0", &h[..63])),
             ] {
                 out.push((format!("denom:{n}"), json!(c)));
             }
